@@ -354,3 +354,32 @@ def near_miss_families(rng, count, cover=True, giga=False):
         rng.shuffle(vals)
         out.append({"vals": vals[:8], "C": C})
     return out
+
+
+def gscale_families(rng, count, cover=True):
+    """small instances (values <= 21, so that TLC's oracles and rule machines apply) presented to the library MULTIPLIED by a common factor of about 1e8:
+    every value still fits a signed 32-bit integer, sums of two values and the bin size do not.  The judges see the small numbers (dividing by the
+    common factor is exact); the library sees int32 / int64 / uint32 numpy arrays, lists and dicts of numbers around 2^31.  Shapes: two medium items
+    (binsize/3 <= v < binsize/2) whose sum passes 2^31, items on the class thresholds, exact fills."""
+    out = []
+    for i in range(count):
+        mul = rng.choice([10 ** 8, 10 ** 8, 99999989, 1 << 26])
+        top = (2 ** 31 - 1) // mul           # 21 for 1e8, 31 for 2^26
+        C = rng.choice([24, 30, 30, 36, 27, 25]) if cover else rng.choice([22, 24, 30, 25])
+        n = rng.randint(3, 9)
+        kind = i % 3
+        if kind == 0:
+            vals = [rng.randint(1, min(top, C)) for _ in range(n)]
+        elif kind == 1:   # big / medium / small classes all present
+            vals = [rng.randint((C + 1) // 2, min(top, C)) for _ in range(rng.randint(0, 2))] + \
+                   [rng.randint((C + 2) // 3, (C - 1) // 2) for _ in range(rng.randint(2, 4))] + \
+                   [rng.randint(1, max(1, (C - 1) // 3)) for _ in range(rng.randint(1, 4))]
+        else:             # thresholds and exact fills
+            vals = [rng.choice([C // 2, C // 3, C - C // 2, C // 2 - 1, C // 3 + 1, 1, 2]) for _ in range(n)]
+        vals = [min(v, top) for v in vals]
+        if not cover:
+            vals = [min(v, C) for v in vals]
+        rng.shuffle(vals)
+        out.append({"vals": vals, "C": C, "mul": mul,
+                    "fmts": [rng.choice(["int32array", "int32array", "uint32array", "int64array", "list", "iddict"])]})
+    return out
